@@ -372,7 +372,7 @@ mod verif_replay_interp {
     fn error_doc(content: &str) -> String {
         format!(
             r###"<scxml xmlns="http://www.w3.org/2005/07/scxml" initial="s0" version="1.0" datamodel="rfsm-expression">
- <datamodel><data id="v" expr="1"/></datamodel>
+ <datamodel><data id="v" expr="1"/><data id="zero" expr="0"/></datamodel>
  <state id="s0">
   <onentry>{}<raise event="after"/></onentry>
   <transition event="error.execution" target="s1"/>
@@ -408,6 +408,12 @@ mod verif_replay_interp {
             r#"<send event="e" delayexpr="nosuch"/>"#,
             r#"<send eventexpr="nosuch"/>"#,
             r#"<send event="e" targetexpr="nosuch"/>"#,
+            // expressions that evaluate to an error VALUE (not a failed evaluation)
+            r#"<log expr="10 % zero"/>"#,
+            r#"<script>10 % zero</script>"#,
+            r#"<log expr="0 / zero"/>"#,
+            r#"<log expr="true + 1"/>"#,
+            r#"<assign location="v" expr="10 % zero"/>"#,
         ] {
             assert_eq!(run(&error_doc(c), &[]), fin("pass"), "content {}", c);
         }
@@ -758,5 +764,48 @@ mod verif_replay_interp {
                 }
             }
         }
+    }
+
+    const SECOND_EVENT: &str = r###"<scxml xmlns="http://www.w3.org/2005/07/scxml" initial="s0" version="1.0" datamodel="rfsm-expression">
+ <state id="s0">
+  <onentry><send event="first" id="one"><param name="p" expr="1"/></send><send event="second" id="two" delay="100ms"><param name="p" expr="2"/></send><raise event="third"/></onentry>
+  <transition event="third" cond="(_event.name == 'third') &amp; (_event.type == 'internal')" target="s1"/>
+  <transition event="*" target="stale0"/>
+ </state>
+ <state id="s1">
+  <transition event="first" cond="(_event.name == 'first') &amp; (_event.sendid == 'one') &amp; (_event.data.p == 1) &amp; (_event.type == 'external')" target="s2"/>
+  <transition event="*" target="stale1"/>
+ </state>
+ <state id="s2">
+  <transition event="second" cond="(_event.name == 'second') &amp; (_event.sendid == 'two') &amp; (_event.data.p == 2)" target="pass"/>
+  <transition event="*" target="stale2"/>
+ </state>
+ <final id="pass"/><final id="stale0"/><final id="stale1"/><final id="stale2"/>
+</scxml>"###;
+
+    /// C09: _event describes the event being processed, for every event of the session (not only the first)
+    #[test]
+    fn verif_replay_interp_event_variable_follows_each_event() {
+        assert_eq!(run(SECOND_EVENT, &[]), fin("pass"));
+    }
+
+    const TWO_INVOKES: &str = r###"<scxml xmlns="http://www.w3.org/2005/07/scxml" initial="s0" version="1.0" datamodel="rfsm-expression">
+ <datamodel><data id="ida"/><data id="idb"/></datamodel>
+ <state id="s0">
+  <onentry><send event="timeout" delay="2s"/></onentry>
+  <invoke type="scxml" idlocation="ida"><content><scxml xmlns="http://www.w3.org/2005/07/scxml" initial="c0" version="1.0" datamodel="rfsm-expression"><state id="c0"><transition target="cf"/></state><final id="cf"/></scxml></content></invoke>
+  <invoke type="scxml" idlocation="idb"><content><scxml xmlns="http://www.w3.org/2005/07/scxml" initial="c0" version="1.0" datamodel="rfsm-expression"><state id="c0"><onentry><send target="#_parent" event="from.b" delay="400ms"/></onentry></state></scxml></content></invoke>
+  <transition event="from.b" cond="ida != idb" target="pass"/>
+  <transition event="from.b" target="sameid"/>
+  <transition event="timeout" target="lost"/>
+ </state>
+ <final id="pass"/><final id="sameid"/><final id="lost"/>
+</scxml>"###;
+
+    /// C14/C15: two <invoke>s without an id get distinct generated invoke ids, so the end of one child does not
+    /// unregister the other (its later event is still accepted)
+    #[test]
+    fn verif_replay_interp_generated_invoke_ids_are_distinct() {
+        assert_eq!(run(TWO_INVOKES, &[]), fin("pass"));
     }
 }
